@@ -236,6 +236,13 @@ func (x *Exec) invoke(fr *Frame, st *State, site ssa.Instruction, cc *ssa.CallCo
 		h(x, fr, st, site, recv, args, k)
 		return
 	}
+	// interfaces declared outside the module (net.Conn, io.Writer, slog.Handler, ...): assumed not to write
+	// memory the verified code can observe; result unconstrained
+	if tn, ok := cc.Value.Type().(*types.Named); ok && tn.Obj().Pkg() != nil && !strings.HasPrefix(tn.Obj().Pkg().Path(), x.modulePath) {
+		x.assumeNote(fmt.Sprintf("external interface method %s: result unconstrained, no caller-visible writes, does not panic", cc.Method.FullName()))
+		x.havocCall(fr, st, site, sig, false, k)
+		return
+	}
 	x.note("interface call %s without contract: heap havocked", iname)
 	x.havocCall(fr, st, site, sig, true, k)
 }
